@@ -39,8 +39,10 @@ StepS(T, e, r) ==
     [] e.ev = "Final"     -> T
     [] e.ev = "Close"     -> Close(T)
 
+\* Append: a write through a handle opened with FXF_APPEND lands at the end of the represented file
 StepI(I, e) ==
   CASE e.ev = "Overwrite" -> IdealWrite(I, e.off, e.data)
+    [] e.ev = "Append"    -> IdealWrite(I, Len(I), e.data)
     [] e.ev = "SetSize"   -> IdealSetSize(I, e.n)
     [] OTHER              -> I
 
@@ -49,7 +51,8 @@ StepD(D, I, e) ==
     [] e.ev = "SetSize"   -> DirtySetSize(D, I, e.n)
     [] OTHER              -> D
 
-KnownEvent(e) == e.ev \in {"Chunk", "Finish", "Overwrite", "SetSize", "Read", "Final", "Close"}
+KnownEvent(e) == e.ev \in {"Chunk", "Finish", "Overwrite", "SetSize", "Read", "Final", "Close", "Append", "FStat"}
+HandleOnly(e) == e.ev \in {"Append", "FStat"}         \* events of the handle leg (contract mode only)
 
 \* the driver respects the caller contract of read(): no client action while a read is outstanding
 ContractOK(T, e) == e.ev \in {"Overwrite", "SetSize", "Final", "Close"} => Quiescent(T)
@@ -115,6 +118,7 @@ ContractClause(e, I, n) ==
             r.err # "" \/ r.eof # IdealEOF(I, q.off) \/ (~r.eof /\ r.res # IdealRead(I, q.off, q.len))
     THEN "C39_ReadEqualsIdeal"
   ELSE IF e.ev = "Final" /\ e.obs.file # I THEN "C39_FinalEqualsIdeal"
+  ELSE IF e.ev = "FStat" /\ e.n # Len(I) THEN "C39_SizeIsIdeal"
   ELSE IF e.ev \in {"Final", "Close"} /\ IssuedUpTo(n) # FiredUpTo(n) THEN "C39_NoWaiterWhenDone"
   ELSE ""
 InternalClause(c) == c \in {"conf_downloaded", "conf_download_size", "conf_current_size", "conf_overwrites_heap",
@@ -126,7 +130,7 @@ TraceInit ==
   /\ S = InitState(Len(Orig))
   /\ ideal = Orig
   /\ dirty = {}
-  /\ rule = "max"
+  /\ rule = (IF Traces[tid].consts.contract THEN "contract" ELSE "max")
   /\ bad = "none"
 
 TraceNext ==
@@ -134,8 +138,9 @@ TraceNext ==
   /\ l <= Len(Events)
   /\ LET e  == Ev
          \* (in contract mode S is no longer followed: quiescence is read off the trace)
-         ok0 == KnownEvent(e) /\ (IF rule = "contract"
-                                   THEN (e.ev \in {"Overwrite", "SetSize", "Final", "Close"} => IssuedUpTo(l - 1) = FiredUpTo(l - 1))
+         ok0 == KnownEvent(e) /\ (HandleOnly(e) => rule = "contract")
+                              /\ (IF rule = "contract"
+                                   THEN (e.ev \in {"Overwrite", "Append", "SetSize", "FStat", "Final", "Close"} => IssuedUpTo(l - 1) = FiredUpTo(l - 1))
                                    ELSE ContractOK(S, e))
          N1 == IF ok0 THEN StepS(S, e, rule) ELSE S
          c1 == IF ~KnownEvent(e) THEN "unknown_event" ELSE IF ~ok0 THEN "harness_contract"
